@@ -306,8 +306,14 @@ def _input_checks_facts():
     scls = next(n for n in stree.body if isinstance(n, ast.ClassDef) and n.name == "Sensor")
     setters = {n.name: n for n in scls.body if isinstance(n, ast.FunctionDef)
                and any(isinstance(d, ast.Attribute) and d.attr == "setter" for d in n.decorator_list)}
-    skel = {name: skeleton(fns[name]) for name in ("is_array_like", "make_float_array", "check_array_shape", "check_format_input_scalar",
-                                                   "check_format_input_vector", "check_format_input_vector2", "check_format_input_vertices")}
+    modelled = ("is_array_like", "make_float_array", "none_rows_to_nan", "check_array_shape", "check_format_input_scalar",
+                "check_format_input_vector", "check_format_input_vector2", "check_format_input_vertices",
+                "check_start_type", "check_degree_type", "check_field_input", "check_getBH_output_type", "check_format_input_anchor",
+                "check_format_input_angle", "check_format_input_axis", "check_format_input_orientation")
+    for name in modelled:
+        if name not in fns:
+            raise Refusal(f"input_checks.{name} (modelled statement by statement in Model/Validators.lean) does not exist in the source")
+    skel = {name: skeleton(fns[name]) for name in modelled}
     skel["Sensor.pixel"] = skeleton(setters["pixel"])
     skel["Sensor.handedness"] = skeleton(setters["handedness"])
     return inner, conds, skel
